@@ -74,13 +74,27 @@ def ckpt_case(c):
 
         def wr(comm):
             h = getLayoutHandler(comm, LAYOUTS, list(g1), eta)
-            g = Grid(eta, [None] * 4, h, c['layout'], comm, dtype=float)
+            hist = c.get('history', 'constructed')
+            other = [nm for nm in ('flux_surface', 'v_parallel', 'poloidal') if nm != c['layout']][c['seed'] % 2]
+            if hist == 'via-setLayout':
+                # the grid reaches the layout it is written in by a layout change
+                g = Grid(eta, [None] * 4, h, other, comm, dtype=float)
+                g._f[:] = np.nan
+                g.setLayout(c['layout'])
+            else:
+                g = Grid(eta, [None] * 4, h, c['layout'], comm, dtype=float, allocateSaveMemory=(hist == 'save-restore'))
             lay = g.getLayout(c['layout'])
             crd = coords_of(comm.Get_rank(), g1)
             mine = tuple(slice(bstart(GT[0].shape[a], p, k), bstart(GT[0].shape[a], p, k + 1))
                          for a, (p, k) in enumerate(zip(list(g1) + [1, 1], crd + [0, 0])))
             for i, t in enumerate(times):
                 g._f[:] = GT[i][mine].view(np.float64)
+                if hist == 'save-restore':
+                    # a rolled-back step: the values are saved, the grid moves on to another layout, the values are restored
+                    g.saveGridValues()
+                    g.setLayout(other)
+                    g._f[:] = np.nan
+                    g.restoreGridValues()
                 g.writeH5Dataset(d, t)
             return [int(x) for x in lay.starts], [int(x) for x in lay.shape]
         R = MPI.run(g1[0] * g1[1], wr, seed=c['seed'])
@@ -111,8 +125,13 @@ def ckpt_case(c):
         def rd(comm):
             if c['loader'] == 'load':
                 h = getLayoutHandler(comm, LAYOUTS, list(g2), eta)
-                g = Grid(eta, [None] * 4, h, c['layout'], comm, dtype=float)
+                hist = c.get('history', 'constructed')
+                g = Grid(eta, [None] * 4, h, c['layout'], comm, dtype=float, allocateSaveMemory=(hist == 'save-restore'))
                 g._f[:] = np.nan
+                if hist == 'save-restore':
+                    g.saveGridValues()
+                    g.setLayout([nm for nm in ('flux_surface', 'v_parallel', 'poloidal') if nm != c['layout']][c['seed'] % 2])
+                    g.restoreGridValues()
                 if c.get('time') is None:
                     g.loadFromFile(d)
                 else:
@@ -203,6 +222,7 @@ def gen_ckpt_cases(chk, rng):
             # a requested checkpoint that is not the latest one, the initial one (t = 0, a falsy value) in particular
             c['times'] = times = list(rng.choice([[0, 5, 10], [0, 40], [10, 0, 2], [5, 40, 100]]))
             c['time'] = min(times)
+        c['history'] = ['constructed', 'save-restore', 'via-setLayout', 'constructed'][(i // 3) % 4]
         if loader == 'setup':
             c['nranks2'] = g2[0] * g2[1]
             c['npts'] = npts = [max(4, x) for x in npts]
@@ -221,6 +241,8 @@ def ckpt_stratum(c):
     s = 'save1' if p1 == 1 else 'saveN'
     s += '-same' if c['grid'] == c['grid2'] else ('-load1' if p2 == 1 else '-other')
     s += '-' + c['loader']
+    if c.get('history', 'constructed') != 'constructed':
+        s += '-' + c['history']
     if any(isinstance(t, float) for t in c['times']):
         s += '-floattimes'
     elif max(c['times']) >= 10 ** 6 and c['time'] is None:
